@@ -29,11 +29,11 @@ fn random_tape(r: &mut Rng, max_blocks: u64, header_ok: bool) -> Vec<Vec<u8>> {
     (0..n)
         .map(|i| {
             // mostly short blocks; now and then one around and beyond the player's 128-byte streaming window
-            let len = if r.chance(1, 6) { *r.pick(&[127usize, 128, 129, 130, 255, 256, 257, 300, 384]) } else { *r.pick(&[2usize, 3, 5, 19, 40]) };
+            let len = if r.chance(1, 6) { *r.pick(&[127usize, 128, 129, 130, 255, 256, 257, 300, 384]) } else { *r.pick(&[1usize, 2, 3, 5, 19, 40]) };
             let mut b = r.bytes(len);
             // flag byte: header (0x00, long pilot of 8063 edges) at any position, but not too often
             b[0] = if header_ok && r.chance(1, if i == 0 { 3 } else { 4 }) { 0 } else { *r.pick(&[0xFFu8, 0x01, 0x80, 0x7E]) };
-            if r.chance(1, 2) {
+            if len > 1 && r.chance(1, 2) {
                 // byte values that exercise every bit position
                 let k = r.below(len as u64 - 1) as usize + 1;
                 b[k] = *r.pick(&[0x00u8, 0xFF, 0x80, 0x01, 0x55, 0xAA]);
